@@ -46,6 +46,19 @@ type DagSpec struct {
 	ClockSkew int64   // honest clocks differ by up to this many seconds
 	Liars     int     // number of creators with arbitrary timestamps
 	ItxProb   float64
+	// Hidden: one creator's head is not used as other-parent by the creators in
+	// HiddenFrom during [HideFrom, HideTo) (fractions of the DAG): produces
+	// split votes and long fame elections
+	Hidden     bool
+	HideFrom   float64
+	HideTo     float64
+	HiddenHalf int // how many other creators do NOT see the hidden creator
+	Dense      bool
+	// Mute: one more creator creates no event and is not pulled from during
+	// [MuteFrom, MuteTo): its last events stay unknown to most for a while
+	Mute     bool
+	MuteFrom float64
+	MuteTo   float64
 }
 
 func (e *DagEvent) fresh() *hg.Event {
@@ -85,6 +98,25 @@ func genDag(rng *rand.Rand, seed int64, sp DagSpec) *Dag {
 		}
 	}
 	txc := 0
+	hiddenCreator := -1
+	blind := map[int]bool{}
+	if sp.Hidden && sp.N >= 3 {
+		hiddenCreator = rng.Intn(sp.N)
+		for _, i := range rng.Perm(sp.N) {
+			if i != hiddenCreator && len(blind) < sp.HiddenHalf {
+				blind[i] = true
+			}
+		}
+	}
+	muted := -1
+	if sp.Mute && sp.N >= 4 {
+		for _, i := range rng.Perm(sp.N) {
+			if i != hiddenCreator {
+				muted = i
+				break
+			}
+		}
+	}
 	for len(d.Events) < sp.Events {
 		a := rng.Intn(sp.N)
 		other := ""
@@ -93,7 +125,48 @@ func genDag(rng *rand.Rand, seed int64, sp DagSpec) *Dag {
 			if b >= a {
 				b++
 			}
-			other = heads[b]
+			frac := float64(len(d.Events)) / float64(sp.Events)
+			if muted >= 0 && frac >= sp.MuteFrom && frac < sp.MuteTo {
+				if a == muted {
+					continue
+				}
+				for tries := 0; tries < 8 && b == muted; tries++ {
+					b = rng.Intn(sp.N - 1)
+					if b >= a {
+						b++
+					}
+				}
+				if b == muted {
+					b = a
+				}
+			}
+			if hiddenCreator >= 0 && frac >= sp.HideFrom && frac < sp.HideTo {
+				// blind creators do not pull from the hidden one; to keep the split alive
+				// they also avoid pulling from creators that do see it, most of the time
+				for tries := 0; tries < 6; tries++ {
+					if blind[a] && (b == hiddenCreator || (!blind[b] && rng.Intn(4) != 0)) {
+						b = rng.Intn(sp.N - 1)
+						if b >= a {
+							b++
+						}
+						continue
+					}
+					if !blind[a] && a != hiddenCreator && blind[b] && rng.Intn(4) != 0 {
+						b = rng.Intn(sp.N - 1)
+						if b >= a {
+							b++
+						}
+						continue
+					}
+					break
+				}
+				if blind[a] && b == hiddenCreator {
+					b = a
+				}
+			}
+			if b != a {
+				other = heads[b]
+			}
 		}
 		if seqs[a] < 0 {
 			if rng.Float64() < sp.NoOtherFirst {
@@ -232,6 +305,9 @@ type DagExec struct {
 	Err      error
 	ErrAt    int
 	MaxUndet int
+	// MaxPendingSpan: largest (last round - oldest round with an undecided
+	// witness) seen after a consensus pass; >= 4 means a coin round voted
+	MaxPendingSpan int
 	H        *hg.Hashgraph
 	Store    hg.Store
 	Inserted int
@@ -301,6 +377,11 @@ func execDag(d *Dag, order []*DagEvent, o ExecOpts) *DagExec {
 			if err := runConsensus(h); err != nil {
 				x.Err, x.ErrAt = err, i
 				return x
+			}
+			if pr := h.VerifPendingRounds(); len(pr) > 0 {
+				if span := store.LastRound() - pr[0][0]; span > x.MaxPendingSpan {
+					x.MaxPendingSpan = span
+				}
 			}
 		}
 	}
@@ -402,15 +483,19 @@ func compareExec(ref, v *DagExec, prefixOnly bool) string {
 		if a.Round != b.Round || a.Witness != b.Witness || a.Lamport != b.Lamport {
 			return fmt.Sprintf("event %s: reference round=%d witness=%v lamport=%d, variant round=%d witness=%v lamport=%d", h[:12], a.Round, a.Witness, a.Lamport, b.Round, b.Witness, b.Lamport)
 		}
+		// A witness that arrives after its round was decided keeps an undefined
+		// fame for ever and is, by design, treated as not famous: "False" and
+		// "Undefined" are the same outcome once the round is decided.
+		famous := func(f string) bool { return f == "True" }
 		if prefixOnly {
-			if b.Fame != "Undefined" && b.Fame != "n/a" && b.Fame != "absent" && a.Fame != b.Fame {
+			if b.Fame != "Undefined" && b.Fame != "n/a" && b.Fame != "absent" && famous(a.Fame) != famous(b.Fame) {
 				return fmt.Sprintf("witness %s: fame %s in the sub-DAG but %s in the full DAG", h[:12], b.Fame, a.Fame)
 			}
 			if b.RR >= 0 && a.RR != b.RR {
 				return fmt.Sprintf("event %s: round-received %d in the sub-DAG but %d in the full DAG", h[:12], b.RR, a.RR)
 			}
 		} else {
-			if a.Fame != b.Fame {
+			if famous(a.Fame) != famous(b.Fame) {
 				return fmt.Sprintf("witness %s: fame %s vs %s", h[:12], a.Fame, b.Fame)
 			}
 			if a.RR != b.RR {
@@ -423,4 +508,166 @@ func compareExec(ref, v *DagExec, prefixOnly bool) string {
 
 func execDagWithBlocks(d *Dag, order []*DagEvent) *DagExec {
 	return execDag(d, order, ExecOpts{Store: "inmem", Cache: len(order)*2 + 200, Batch: 1})
+}
+
+// delayedExtension returns a topological order in which the events of creator
+// lag are postponed as long as possible (they arrive late, like the events of
+// a validator that was unheard for a while).
+func (d *Dag) delayedExtension(rng *rand.Rand, lag int) []*DagEvent {
+	indeg := map[string]int{}
+	children := map[string][]string{}
+	var ready []string
+	for _, e := range d.Events {
+		c := 0
+		for _, p := range e.Parents {
+			if p != "" {
+				c++
+				children[p] = append(children[p], e.Hash)
+			}
+		}
+		indeg[e.Hash] = c
+		if c == 0 {
+			ready = append(ready, e.Hash)
+		}
+	}
+	var out []*DagEvent
+	for len(ready) > 0 {
+		cand := []int{}
+		for i, h := range ready {
+			if d.ByHash[h].Creator != lag {
+				cand = append(cand, i)
+			}
+		}
+		var i int
+		if len(cand) > 0 {
+			i = cand[rng.Intn(len(cand))]
+		} else {
+			i = rng.Intn(len(ready))
+		}
+		h := ready[i]
+		ready[i] = ready[len(ready)-1]
+		ready = ready[:len(ready)-1]
+		out = append(out, d.ByHash[h])
+		for _, c := range children[h] {
+			indeg[c]--
+			if indeg[c] == 0 {
+				ready = append(ready, c)
+			}
+		}
+	}
+	return out
+}
+
+// electionProfile replays the virtual voting on a fully inserted DAG (using the
+// real strongly-see / see predicates) to find elections in which, at a normal
+// round right before a coin round, some witnesses already hold a supermajority
+// and others do not. It is used as a *workload search heuristic* only (to pick
+// DAGs that exercise the coin-round logic), never as an oracle.
+func electionProfile(x *DagExec) (partialBeforeCoin int, maxDiff int) {
+	h, st := x.H, x.Store
+	last := st.LastRound()
+	for r := 0; r <= last-4; r++ {
+		ri, err := st.GetRound(r)
+		if err != nil {
+			continue
+		}
+		for _, w := range ri.Witnesses() {
+			votes := map[string]bool{}
+			decided := false
+			for j := r + 1; j <= last && !decided; j++ {
+				rj, err := st.GetRound(j)
+				if err != nil {
+					break
+				}
+				psj, err := st.GetPeerSet(j)
+				if err != nil {
+					break
+				}
+				diff := j - r
+				deciders, total := 0, 0
+				noDeciders := 0
+				var noDeciderList []string
+				for _, y := range rj.Witnesses() {
+					total++
+					if diff == 1 {
+						s, _ := h.VerifAncestor(y, w)
+						votes[y] = s
+						continue
+					}
+					prev, err := st.GetRound(j - 1)
+					if err != nil {
+						continue
+					}
+					psp, _ := st.GetPeerSet(j - 1)
+					yays, nays := 0, 0
+					for _, z := range prev.Witnesses() {
+						ss, _ := h.VerifStronglySee(y, z, psp)
+						if ss {
+							if votes[z] {
+								yays++
+							} else {
+								nays++
+							}
+						}
+					}
+					v, t := false, nays
+					if yays >= nays {
+						v, t = true, yays
+					}
+					if diff%4 != 0 {
+						votes[y] = v
+						if t >= psj.SuperMajority() {
+							deciders++
+							if !v {
+								noDeciders++
+								noDeciderList = append(noDeciderList, y)
+							}
+						}
+					} else {
+						if t >= psj.SuperMajority() {
+							votes[y] = v
+						} else {
+							votes[y] = middleBitOf(y)
+						}
+					}
+				}
+				if diff > maxDiff && total > 0 {
+					maxDiff = diff
+				}
+				if diff%4 != 0 && deciders > 0 {
+					if deciders < total && diff%4 == 3 && noDeciders > 0 {
+						// is there a witness two rounds later that does not descend from any
+						// of the deciders (a node can reach it without having them)?
+						if r2, err := st.GetRound(j + 2); err == nil {
+							for _, z := range r2.Witnesses() {
+								free := true
+								for _, y0 := range noDeciderList {
+									if a, _ := h.VerifAncestor(z, y0); a {
+										free = false
+									}
+								}
+								if free {
+									partialBeforeCoin++
+									break
+								}
+							}
+						}
+					}
+					if deciders == total {
+						decided = true
+					}
+					// with partial deciders the election continues for the nodes that lack them
+				}
+			}
+		}
+	}
+	return
+}
+
+func middleBitOf(hexs string) bool {
+	b, err := decodeHex(hexs)
+	if err != nil || len(b) == 0 {
+		return true
+	}
+	return b[len(b)/2] != 0
 }
